@@ -350,6 +350,11 @@ fn gen_op(prop: &str, d: &Desc, cur: &Value, avail: usize, rng: &mut Rng) -> Opt
         Desc::Flex { item, len: lend } => {
             let len = cur.fields().len();
             if prop == "C17" {
+                // mostly pushes (the image of a value built by pushes only is compared with the serialiser); now and then
+                // an item is removed again
+                if len > 0 && rng.chance(1, 6) {
+                    return Some(if rng.chance(1, 2) { Op::FPop } else { Op::FTruncate(rng.range(0, len)) });
+                }
                 let bb = *rng.pick(&[1usize, 3, 7, 12]);
                 return Some(Op::FPush(gen_value(item, rng, bb), rng.next()));
             }
@@ -406,7 +411,7 @@ fn candidates(prop: &str, d: &Desc, v: &Value, dec: &Decoded, rng: &mut Rng) -> 
             _ => matches!(prop, "C14") && n.path.len() <= 3 && !n.path.is_empty(),
         };
         // C12: edits inside items are interesting, so nested Vec/Str below a Flex are included
-        let w = w || (prop == "C12" && matches!(nd, Desc::Vec { .. } | Desc::Str { .. }) && !n.path.is_empty());
+        let w = w || (matches!(prop, "C12" | "C17") && matches!(nd, Desc::Vec { .. } | Desc::Str { .. }) && !n.path.is_empty());
         if w {
             c.push(n);
         }
@@ -557,6 +562,8 @@ pub fn run(ctx: &Ctx, rep: &mut Report) {
             (vt.new_in_place)(arena_slice_mut(&mut arena), &v0, style0, &mut |root| {
                 let mut model = v0.clone();
                 let mut dead = false;
+                // C17: true while the value has been built by FlexVec pushes only (no spare room inside sealed items)
+                let mut pushes_only = true;
                 for step in 0..steps {
                     if dead {
                         break;
@@ -785,7 +792,28 @@ pub fn run(ctx: &Ctx, rep: &mut Report) {
                         }
                     }
                     // C17: a portable value built by pushes has the padding-free reference image
+                    if prop == "C17" && changed_ok && !matches!(op, Op::FPush(..)) {
+                        pushes_only = false;
+                    }
                     if prop == "C17" && changed_ok && !lean {
+                        // "can be mapped at any address": the value's own image, copied to an odd address, maps to the same value
+                        let m = size_a.min(bytes_a.len());
+                        let mut ar2 = Arena::new(m, 1 + 2 * (steps_done as usize % 4), Place::Tail, 11);
+                        ar2.fill_from(&bytes_a[..m]);
+                        let mut got = None;
+                        match guarded(|| (vt.from_bytes)(ar2.slice(), &mut |v| got = Some((v.read(), v.size())))) {
+                            Ok(Ok(())) => {
+                                let (gv, gs) = got.unwrap();
+                                if gv != read_a || gs != size_a {
+                                    viol.push((format!("C17|image-maps-to-another-value-at-another-address|{}", kind_path(d)), format!("after {}: as_bytes()[..size()] ({} bytes) copied to an odd address maps to {} with size {} (was {} / {})", opdesc, m, gv.short(), gs, read_a.short(), size_a)));
+                                }
+                            }
+                            Ok(Err(e)) => viol.push((format!("C17|image-does-not-map-at-another-address|{}", kind_path(d)), format!("after {}: as_bytes()[..size()] ({} bytes) copied to an odd address is rejected: {:?}", opdesc, m, e))),
+                            Err(p) => viol.push((format!("C17|panic|remap|{}", panic_site(&p)), format!("after {}: {}", opdesc, p))),
+                        }
+                        counters.push("c17:remapped-at-odd-address".into());
+                    }
+                    if prop == "C17" && changed_ok && !lean && pushes_only {
                         let mut ser = Vec::new();
                         serialize_portable(d, &model, &mut ser);
                         let m = size_a.min(bytes_a.len());
